@@ -26,6 +26,8 @@ func checkC02(c *Ctx) {
 		"(T4) the segment number handed to the processor is a loop-carried counter that changes in every iteration; after a call with last=true no further segment is processed; (T4-counter-range) between two processor calls an edge bounds the counter so that the number neither wraps nor is truncated (the loop is shared by Encrypt and Decrypt); " +
 		"(T5) a clean close is reachable only after a processor call with last=true (from the entry: T5-first, after a non-final call: T5-next); " +
 		"(H1/H2) in the header reader a source-read error not established to be io.EOF is returned, and the reader handed on (stored through the *io.Reader parameter, or returned) still contains the source unless the source returned io.EOF; " +
+		"(K1) key provenance: Decrypt hands a stream to its caller (or starts the segment phase) only on paths on which UnwrapKeyFn — found through the exported callback type — returned no error, and the key bytes handed to the key import on such a path are the ones it returned: a placeholder substituted after a failed unwrap or for a key of the wrong length is a public constant, so such a path must end in an error whatever the header MAC says (decided with the path explorer from Decrypt's entry, through helpers, flags, (key, ok) results and early returns); " +
+		"(P1) within the segment loop a buffer taken from a sync.Pool is given back at most once on every path and not before a later read / processor call (a twice-released buffer is shared by two later streams and the segment being written to the pipe can be overwritten); " +
 		"(T7) Decrypt returns the read half of the io.Pipe whose write half reaches the segment loop, and the processor the loop gets on the way from Decrypt authenticates (calls AEAD.Open, itself or through same-package functions). " +
 		"NOT decided: that AEAD rejects a given mutation (trusted primitive), that the bytes released are a prefix of the plaintext as a runtime fact, byte-exact round trip (C01), anything about the header MAC (NOTE only: every payload byte is authenticated by the AEAD under a key derived from the file key and nonce prefix, so the statement holds with or without the MAC), constant-time behaviour, the number of bytes written, the Read-chunking contract of the fill loop (C01-R1). The path explorer works instruction by instruction: it tracks the memory the function owns (locals, fields of local structs by value or pointer incl. nested sub-structs, fields behind its pointer receiver), keeps eager symbolic offsets (value = base + constant), steps into loop-free same-package helpers so that the flags / small enums / tuples a phase helper returns stay correlated with the branches its caller takes, and evaluates comparisons of constants and of errors with nil. Calls through an unexported interface seam are followed to the implementations that are converted to the interface on the way from Decrypt; function values are resolved through parameters, captures, fields and literal tables. An authentication helper may report (value, ok bool) instead of an error. UNDECIDED (not followed): error variables or the pipe captured by closures (e.g. a single deferred closure that closes the pipe according to a captured error), errors kept in struct fields, helpers with loops that compute flags the loop branches on, helpers nested more than three levels, a segment processor with a different signature."
 	r.Assumptions = append(r.Assumptions,
@@ -50,6 +52,8 @@ func checkC02(c *Ctx) {
 	r.Rule("C02.T5-next", "segment loop: after a processor call with last=false, a clean close is not reachable without another call", 1)
 	r.Rule("C02.H1-header-read-error-returned", "header reader: a source-read error not established to be io.EOF is returned (never dropped on a success return)", 1)
 	r.Rule("C02.H2-header-keeps-source", "header reader: the reader handed on still contains the source unless the source returned io.EOF", 1)
+	r.Rule("C02.K1-key-provenance", "Decrypt hands out a stream (or starts the segment phase) only with the key UnwrapKeyFn returned without an error: a failed unwrap, or a substituted key, ends in an error return", 2)
+	r.Rule("C02.P1-buffer-exclusive", "segment loop: a buffer taken from a sync.Pool is given back at most once on every path and not before a later read / processor call", 1)
 	r.Rule("C02.T7-wiring", "Decrypt returns the pipe fed by the segment loop, whose processor (on the way from Decrypt) authenticates", 2)
 
 	// The exported entry point is the only name the check relies on; everything
@@ -78,6 +82,7 @@ func checkC02(c *Ctx) {
 		c02CheckProcessSegments(p, r, f)
 	}
 	c02CheckWiring(p, r, roles)
+	c02CheckKeyProvenance(p, r, roles)
 	for _, f := range roles.headers {
 		c02CheckReadHeader(p, r, f)
 	}
@@ -1056,6 +1061,7 @@ func c02CheckProcessSegments(p *Prog, r *Report, fn *ssa.Function) {
 	c02ErrorSurfaces(r, L)
 	c02Counter(r, L)
 	c02Finality(r, L)
+	c02CheckBufferExclusive(p, r, L)
 }
 
 // c02CheckLoopCallers: the segment loop fn reports its outcome as an error
